@@ -15,6 +15,7 @@ import (
 	"github.com/insomniacslk/dhcp/dhcpv4"
 	"github.com/insomniacslk/dhcp/iana"
 	"github.com/insomniacslk/dhcp/rfc1035label"
+	"verif/harness/gen4"
 	"verif/harness/mon"
 	"verif/harness/reflabel"
 )
